@@ -52,6 +52,20 @@ def run(ctx):
     probes = [("common_parser", "select null, f(null), * from t"), ("common_parser", "select a from t where b is null"), ("mysql_parser", "select \"s\", null from t"),
               ("common_parser", "insert into t (a) values (null)"), ("common_parser", "delete from t")]
     module_objs = {id(M.SQL_NULL): "mo_sql_parsing.SQL_NULL", id(M.SQL_NULL["null"]): "mo_sql_parsing.SQL_NULL['null']"}
+    # format purity on every corpus statement (cheap): snapshot, format twice, compare
+    for entry, sql in corp[ctx.n(150, 1000):]:
+        st, t = impl.outcome(impl.ENTRY[entry], sql)
+        if st != "ok" or t is None:
+            continue
+        snap = copy.deepcopy(t)
+        st1, s1 = impl.outcome(M.format, t)
+        ctx.count(1, ("fmt", sql))
+        if canon(t) != canon(snap):
+            ctx.violation("input", dict(call=dict(entry=entry, sql=sql), observed="format modified its argument", before=short(snap, 600), after=short(t, 600)))
+            continue
+        st2, s2 = impl.outcome(M.format, t)
+        if (st1, s1 if st1 == "ok" else None) != (st2, s2 if st2 == "ok" else None):
+            ctx.violation("input", dict(call=dict(entry=entry, sql=sql), observed="format returned different text the second time", first=short(s1, 300), second=short(s2, 300)))
     seen_ids = {}          # id -> description of the earlier result holding it (kept alive in `alive`)
     alive = []
     snapshots = []         # (description, tree object, deep snapshot)
